@@ -183,11 +183,11 @@ func (h *NFSProcedureHandler) handleRmdir(body io.Reader, reply *RPCReply, authC
 	}
 
 	// Invalidate caches for removed directory and parent
-	h.server.handler.attrCache.Invalidate(targetPath)
+	h.server.handler.attrCache.InvalidateSubtree(targetPath) // with the negative entries cached below it
 	h.server.handler.attrCache.Invalidate(node.path)
 	if h.server.handler.dirCache != nil {
 		h.server.handler.dirCache.Invalidate(node.path)
-		h.server.handler.dirCache.Invalidate(targetPath)
+		h.server.handler.dirCache.InvalidateSubtree(targetPath)
 	}
 
 	dirPostAttrs, err := h.server.handler.GetAttr(node)
